@@ -582,7 +582,27 @@ package statsd
 //@   callsite post requires (e.AlertType == gostatsd.AlertInfo ==> local(message).Type == pb.EventV2_Info) && (e.AlertType == gostatsd.AlertWarning ==> local(message).Type == pb.EventV2_Warning) && (e.AlertType == gostatsd.AlertError ==> local(message).Type == pb.EventV2_Error) && (e.AlertType == gostatsd.AlertSuccess ==> local(message).Type == pb.EventV2_Success)
 //@   ensures  calls(post) == 1 && calls(eventWg.Done) == 1
 //@   modifies everything
+// post (C15): one request body is attempted again only after a failed attempt and never after a success; it ends in
+// exactly one of: sent (counted once), given up when the retry window is exhausted (counted once as dropped),
+// abandoned because the context is done, or never created (counted once as invalid).
+//@ functype doPost() sig func() error
+//@   modifies everything
+//@   preserves statsd.HttpForwarderHandlerV2
 //@ func (*HttpForwarderHandlerV2).post
+//@   requires hfh != nil && hfh.logger != nil
+//@   callsite post requires hfh.messagesSent == old(hfh.messagesSent) && hfh.messagesDropped == old(hfh.messagesDropped) && hfh.messagesInvalid == old(hfh.messagesInvalid)
+//@   loop 1 invariant calls(post) >= 0 && post != nil && hfh.logger != nil && hfh.messagesSent == old(hfh.messagesSent) && hfh.messagesDropped == old(hfh.messagesDropped) && hfh.messagesInvalid == old(hfh.messagesInvalid) && hfh.messagesCreated == wrapu64(old(hfh.messagesCreated) + 1)
+//@   loop 2 invariant calls(post) >= 1 && hfh.messagesSent == wrapu64(old(hfh.messagesSent) + 1) && hfh.messagesDropped == old(hfh.messagesDropped) && hfh.messagesInvalid == old(hfh.messagesInvalid)
+//@   ensures  [outcome] hfh.messagesSent == old(hfh.messagesSent) || hfh.messagesSent == wrapu64(old(hfh.messagesSent) + 1)
+//@   ensures  [outcome] hfh.messagesDropped == old(hfh.messagesDropped) || hfh.messagesDropped == wrapu64(old(hfh.messagesDropped) + 1)
+//@   ensures  [outcome] hfh.messagesInvalid == old(hfh.messagesInvalid) || hfh.messagesInvalid == wrapu64(old(hfh.messagesInvalid) + 1)
+//@   ensures  [outcome] hfh.messagesSent != old(hfh.messagesSent) ==> hfh.messagesDropped == old(hfh.messagesDropped) && hfh.messagesInvalid == old(hfh.messagesInvalid)
+//@   ensures  [outcome] hfh.messagesDropped != old(hfh.messagesDropped) ==> hfh.messagesSent == old(hfh.messagesSent) && hfh.messagesInvalid == old(hfh.messagesInvalid)
+//@   ensures  [outcome] calls(post) == 0 ==> hfh.messagesInvalid == wrapu64(old(hfh.messagesInvalid) + 1) && hfh.messagesSent == old(hfh.messagesSent) && hfh.messagesDropped == old(hfh.messagesDropped)
+//@   ensures  [outcome] calls(post) >= 1 ==> hfh.messagesInvalid == old(hfh.messagesInvalid)
+//@   modifies everything
+//@ func (*HttpForwarderHandlerV2).constructPost
 //@   trusted
+//@   ensures  result1 == nil ==> result0 != nil
 //@   modifies everything
 //@   preserves statsd.HttpForwarderHandlerV2
